@@ -1,7 +1,6 @@
 package c14
 
 import (
-	"fmt"
 	"log/slog"
 	"sort"
 	"strings"
@@ -24,10 +23,16 @@ func TestMain(m *testing.M) {
 			"CloseWithError; operations = Connected/Disconnected (several conns per peer, duplicates, unknown conns), TagPeer/UntagPeer/UpsertTag "+
 			"(negative values), decaying tags (register/bump/remove/close), Protect/Unprotect with several tags, clock advances across grace/"+
 			"silence/decay periods (split at every ticker instant so that background trims are observed one by one), TrimOpenConns, ForceTrim, "+
-			"late delivery of Disconnected for trimmed conns; after every step the manager is compared with a reference model and every batch of "+
+			"late delivery of Disconnected for trimmed conns, and OVERLAPPED tag operations: an UpsertTag whose callback (harness code) starts a second "+
+			"operation on the same peer on another goroutine (TagPeer/UntagPeer/UpsertTag mostly of the same tag, a decaying bump, Connected, "+
+			"Disconnected mostly the peer's last, TrimOpenConns mostly with the peer's buffered entry prunable, ForceTrim) and yields a bounded "+
+			"number of times before it returns; once both have returned the peer's state must be the result of one of the two serial orders (and "+
+			"its total the sum of its tags), an overlapping trim must be right for the peer's value before or after the upsert; "+
+			"after every step the manager is compared with a reference model and every batch of "+
 			"closes is judged against the statement. TestTrimEnumerated: every multiset of up to 3 (4 thorough) peers over value x conns x "+
 			"protected x in-grace, times low watermark, times {TrimOpenConns, background, ForceTrim}, judged by the same oracle. TestConcurrent: "+
-			"the same operations from several goroutines with an interval-relaxed oracle. "+
+			"the same operations from several goroutines with an interval-relaxed oracle, including increments of the shared tag whose callback "+
+			"starts a second operation of the same goroutine on the same peer (increment, own tag, bump, connect, disconnect, trims) and yields. "+
 			"NON-TRIVIAL = some trim closed >= 1 connection while >= 1 protected or in-grace peer with open connections existed (concurrent test: "+
 			">= 1 close while such a peer existed). DISTINCT = distinct (trim kind, low watermark, sorted list of per-peer (value, #conns, protected, grace state, #closed)) "+
 			"over the non-trivial trims of the case.",
@@ -37,6 +42,7 @@ func TestMain(m *testing.M) {
 		"watermarks >= 1 (0 disables trimming by documentation)",
 		"decay schedule modelled from the documented semantics: the decayer ticks every Resolution (from the manager's creation); a tag is decayed once per effective Interval (DecayingTag.Interval()), first one Interval after the decayer tick at or before its registration; only intervals that are multiples of the resolution (or shorter than it) are generated",
 		"synctest virtual time; benbjohnson/clock.New() follows it",
+		"overlapped operations: the window is the upsert callback; the second operation gets a bounded number of scheduler yields (not time: a goroutine waiting for a mutex keeps a synctest bubble busy) to run inside it. A manager that holds the peer's lock across the callback serialises the two (label overlap:second-waited-for-the-upsert); both serial orders are accepted",
 	)
 	hx.Main(m)
 }
@@ -54,7 +60,7 @@ type weighted struct {
 
 var opTable = []weighted{
 	{"connect", 12}, {"connect-burst", 4}, {"connect-dup", 2}, {"disconnect", 5}, {"disconnect-unknown", 2},
-	{"tag", 7}, {"untag", 3}, {"upsert", 3},
+	{"tag", 7}, {"untag", 3}, {"upsert", 3}, {"upsert-overlap", 5},
 	{"dreg", 3}, {"dbump", 5}, {"dremove", 1}, {"dclose", 1}, {"decay-scenario", 3},
 	{"protect", 4}, {"unprotect", 3},
 	{"advance", 10}, {"trim", 6}, {"force", 3}, {"flush-closed", 4}, {"streams", 1},
@@ -131,18 +137,10 @@ func (w *world) step(rt *rapid.T) {
 	case "untag":
 		w.untagPeer(rapid.IntRange(0, np-1).Draw(rt, "peer"), pick(rt, "tag", staticTags))
 	case "upsert":
-		k := rapid.IntRange(-3, 6).Draw(rt, "k")
-		var name string
-		var f func(int) int
-		switch rapid.IntRange(0, 2).Draw(rt, "fn") {
-		case 0:
-			name, f = fmt.Sprintf("x+%d", k), func(v int) int { return v + k }
-		case 1:
-			name, f = "2x", func(v int) int { return 2 * v }
-		default:
-			name, f = fmt.Sprintf("=%d", k), func(int) int { return k }
-		}
+		name, f := drawUpsertFn(rt)
 		w.upsertTag(rapid.IntRange(0, np-1).Draw(rt, "peer"), pick(rt, "tag", staticTags), name, f)
+	case "upsert-overlap":
+		w.stepUpsertOverlap(rt)
 	case "dreg":
 		var free []string
 		live := map[string]bool{}
